@@ -91,6 +91,10 @@ def run_config(job):
     params = oqupy.TempoParameters(dt=DT, epsrel=EPSREL, **kw)
     h0 = w0 * sz + wx * sx + 0.4 * sy           # a complex Hermitian Hamiltonian
     gam, lop = 0.3, sx - 1j * sy
+    if idx % 2:
+        # the same decay channel between the eigenstates of another (complex) basis: A+A has complex off-diagonal elements
+        vv = probes.haar_unitary(d, seed, "c04-lop", idx)
+        lop = vv @ lop @ vv.conj().T
     if cfg["sys"] == "static":
         system = oqupy.System(h0)
     elif cfg["sys"] == "timedep":
